@@ -7,7 +7,7 @@ call.  CONST: key format identical at insert / removes / router.  TABLE: the
 router looks a reply up with a consuming remove.
 """
 from collections import deque
-from ..core import callee_of, callee_names, is_call_to, fold
+from ..core import callee_of, callee_names, is_call_to, fold, root_fields
 
 RPC = 'edp_node::node::Node::rpc_call_raw_with_timeout::{closure#0}'
 ROUTE = 'edp_node::node::Node::route_message::{closure#0}'
@@ -198,6 +198,57 @@ def run(ctx):
                     ctx.where(B, xb), key='PAIR:%s:%s' % (RPC, inst))
     yields = [bb for bb in reach_all if B.blocks[bb]['t']['k'] == 'yield']
     ctx.info_note('cancellation: %d await points lie between the registration and its removal; dropping the future there leaves the entry (not counted as a violation)' % len(yields))
+
+    # whatever else the call books for itself (a counter of outstanding calls) is given back on every way out
+    ctx.rule('C17.1-counters-paired', 'a counter the call function increments for the duration of the call (fetch_add on a field of the node) is decremented on every path from there to a return: '
+             'an exit that keeps its count makes "calls outstanding" grow with calls that have long returned, until new calls are refused', floor=0)
+    n_cp = 0
+    adds = [(bb, t) for bb, t in B.calls() if bb in B.live_blocks() and (callee_of(t)[0] or '').rsplit('::', 1)[-1] == 'fetch_add' and t['args'] and root_fields(B, t['args'][0])]
+    rets = set(B.return_blocks())
+    for ab, at in adds:
+        fld = sorted(x for x in root_fields(B, at['args'][0]) if isinstance(x, str))
+        subs = set(bb for bb, t in B.calls() if (callee_of(t)[0] or '').rsplit('::', 1)[-1] in ('fetch_sub', 'store', 'swap') and t['args'] and set(fld) & set(root_fields(B, t['args'][0])))
+        if not subs:
+            continue          # an id generator, not a count of something outstanding
+        n_cp += 1
+        nxt = at.get('t')
+        leak = (B.reachable(nxt, removed_blocks=subs) & rets) if isinstance(nxt, int) else set()
+        inst = 'counter:%s' % '.'.join(fld)
+        if leak:
+            ctx.bad('C17.1-counters-paired', inst, 'after %s.fetch_add the call can return without the matching fetch_sub: every such call stays counted as outstanding for ever' % '.'.join(fld),
+                    ctx.where(B, sorted(leak)[0]), key='PAIR:%s:%s:add-without-sub' % (RPC, '.'.join(fld)))
+        else:
+            ctx.ok('C17.1-counters-paired', inst, 'every return after the increment has passed a decrement', ctx.where(B, ab))
+    if n_cp == 0:
+        ctx.ok('C17.1-counters-paired', 'none', 'the call function keeps no counter of its own')
+
+    # the reply a call returns is the one that came in on its own channel
+    ctx.rule('C17.4-reply-from-own-call', 'in the node, a function that returns a term as the answer of a remote call gets it from rpc_call_raw_with_timeout (its own one-shot channel, registered under its own reply pid) and from nowhere else: '
+             'an answer picked up from a channel shared between calls (broadcast / mpsc / watch) is some other call\'s answer', floor=1)
+    n_rf = 0
+    for q in sorted(ctx.F.bodies):
+        if ctx.F.bodies[q]['crate'] != 'edp_node' or ctx.F.bodies[q]['kind'] not in ('Fn', 'AssocFn', 'Closure') or not q.startswith('edp_node::'):
+            continue
+        if not (q.startswith('edp_node::node::Node::') or q.startswith('edp_node::erlang_mod_fns::')):
+            continue
+        QB = P.B(q)
+        if 'Result<erltf::term::OwnedTerm' not in QB.local_ty(0):
+            continue
+        n_rf += 1
+        shared = [(bb, t) for bb, t in QB.calls() if bb in QB.live_blocks() and any(('sync::broadcast' in n or 'sync::mpsc' in n or 'sync::watch' in n) and n.rsplit('::', 1)[-1] in ('recv', 'try_recv', 'recv_many', 'blocking_recv', 'changed', 'borrow', 'borrow_and_update', 'poll_recv')
+                                                                                  for n in callee_names(t))]
+        bad_ = None
+        for sb, st_ in shared:
+            d = QB.derived_locals([st_['dst']['l']])
+            if any(st['k'] == '=' and st['rv']['k'] == 'agg' and st['rv'].get('var') == 'Ok' and str(st['rv'].get('adt')) == 'core::result::Result' and (QB.is_ret_slot(st['pl']['l']) or 0 in QB.derived_locals([st['pl']['l']])) and any(l in d for l in QB._rv_locals(st['rv'])) for bb, j, st in QB.stmts()):
+                bad_ = (sb, callee_of(st_)[0])
+        inst = q.split('::{')[0].rsplit('::', 1)[-1]
+        if bad_:
+            ctx.bad('C17.4-reply-from-own-call', inst, '%s returns as the answer of a remote call what it received on a channel shared between calls (%s): nothing ties that value to the node, the function or the arguments this caller asked for'
+                    % (inst, bad_[1]), ctx.where(QB, bad_[0]), key='PROV:%s:reply-from-shared-channel' % q.split('::{')[0])
+        else:
+            ctx.ok('C17.4-reply-from-own-call', inst, 'no answer taken from a channel shared between calls', ctx.where(QB))
+    ctx.anchor(n_rf >= 3, 'node functions returning the answer of a remote call (rpc_call, rpc_call_raw, rpc_call_raw_with_timeout ...)')
 
     # ---- clause 3: CONST key format ----------------------------------------------------------
     ctx.rule('C17.3-key-format', 'the key is built with the same template from the same pid fields at the insert site and in the router', floor=2)
